@@ -9,7 +9,7 @@ import json, os, shutil, subprocess, sys, time, xml.etree.ElementTree as ET, tem
 P, I = sys.argv[1], sys.argv[2]
 skip_suite = "--skip-suite" in sys.argv
 tier = "quick"
-WT = "/tmp/mut/%s" % P
+WT = os.path.join(os.environ.get("SEED_ROOT", "/tmp/mut"), P)
 OUT = os.path.join(WT, "OUT")
 diff = os.path.join(OUT, "change%s.diff" % I)
 demo = os.path.join(OUT, "demo%s.py" % I)
